@@ -7,7 +7,7 @@ scheduler literal with a SCRIPTED random source.  A case is
   shards [(id, app, members)], regions None | (names, counts), draws [ints]
 with strings encoded as numbers (address k <-> "a<k>", region k <-> "r<k>", app k <-> "app<k>", 0 <-> "").
 """
-import itertools, json, os
+import itertools, json, os, time
 from vlib import *
 
 U64 = 1 << 64
@@ -39,36 +39,75 @@ def go_line(c):
         "draws": list(c["draws"])}, separators=(",", ":"))
 
 
-def nl(xs):
-    return "[" + ";".join(str(x) for x in xs) + "]"
+def cn(n):
+    """Coq term for a number; numerals are expensive for coqc (about 0.15 ms each, 1.5 ms for 19 digits), so large
+    values are written relative to the constants two62/two63/two64 of LaunchRun.v"""
+    if n < (1 << 32):
+        return str(n)
+    for (name, v) in (("two64", 1 << 64), ("two63", 1 << 63), ("two62", 1 << 62)):
+        if v - (1 << 24) <= n < v:
+            return "(%s-%d)" % (name, v - n)
+        if v <= n < v + (1 << 24):
+            return name if n == v else "(%s+%d)" % (name, n - v)
+    return str(n)
 
 
-def coq_case(c, ttl, o):
-    hosts = "[" + ";".join("mkH %d %d %d %s" % (a, r, t, nl(ss)) for (a, r, t, ss) in c["hosts"]) + "]"
-    shards = "[" + ";".join("mkSD %d %s %d" % (i, nl(ms), app) for (i, app, ms) in c["shards"]) + "]"
-    regs = "None" if c["regions"] is None else "(Some (mkRegions %s %s))" % (nl(c["regions"][0]), nl(c["regions"][1]))
+class VFile:
+    """one generated cases file: repeated sub-terms (fleets, specifications, lists) are defined once"""
+    def __init__(self):
+        self.defs, self.order, self.items = {}, [], []
+
+    def intern(self, prefix, text):
+        if len(text) < 12:
+            return text
+        if text not in self.defs:
+            self.defs[text] = "%s%d" % (prefix, len(self.defs))
+            self.order.append((self.defs[text], text))
+        return self.defs[text]
+
+    def nl(self, xs):
+        return self.intern("l", "[" + ";".join(cn(x) for x in xs) + "]")
+
+    def text(self):
+        hdr = ("From stdpp Require Import gmap.\nFrom Drummer.Model Require Import Base DB Launch LaunchRun.\nLocal Open Scope N_scope.\n")
+        return (hdr + "".join("Definition %s := %s.\n" % (n, t) for (n, t) in self.order) +
+                "Definition codes : list N := [\n" + ";\n".join(t for (t, _) in self.items) + "\n].\n"
+                "Definition R := Eval vm_compute in codes.\n"
+                "Definition M1 := Eval vm_compute in codes_with 1 R.\nDefinition M2 := Eval vm_compute in codes_with 2 R.\nPrint M1.\nPrint M2.\n")
+
+
+def coq_req(vf, q):
+    t = {0: "RCreate", 1: "RDelete", 2: "RAdd", 3: "RKill"}.get(q["t"], "RKill")
+    return "mkReq %s %s %s %s %s %s %s %s %s %s %s" % (
+        t, cn(q["sid"]), vf.nl(q["cm"]), cn(q["cc"]), vf.nl(q["rids"]), vf.nl([n_of(x, "a") for x in q["addrs"]]), cn(q["inst"]),
+        cn(n_of(q["raft"], "a")), cbool(q["join"]), cbool(q["restore"]), cn(n_of(q["app"], "app")))
+
+
+def coq_draws(vf, c, o):
     draws = c["draws"]
+    cut = len(draws)
     if o["o"] != "ood":
         # unused draws cannot matter (C08_draws_extend); keep the files small
-        draws = draws[:o["used"] + 4]
+        cut = min(cut, o["used"] + 4)
+    pre = c.get("pre", draws)
+    if cut <= len(pre):
+        return vf.nl(pre[:cut])
+    return "(%s ++ rampN %d)" % (vf.nl(pre), cut - len(pre))
+
+
+def coq_case(vf, c, ttl, o):
+    hosts = vf.intern("f", "[" + ";".join("mkH %s %s %s %s" % (cn(a), cn(r), cn(t), vf.nl(ss)) for (a, r, t, ss) in c["hosts"]) + "]")
+    shards = vf.intern("s", "[" + ";".join("mkSD %s %s %s" % (cn(i), vf.nl(ms), cn(app)) for (i, app, ms) in c["shards"]) + "]")
+    regs = "None" if c["regions"] is None else vf.intern("g", "(Some (mkRegions %s %s))" % (vf.nl(c["regions"][0]), vf.nl(c["regions"][1])))
     if o["o"] == "plan":
-        rs = []
-        for q in o["reqs"]:
-            t = {0: "RCreate", 1: "RDelete", 2: "RAdd", 3: "RKill"}.get(q["t"], "RKill")
-            rs.append("mkReq %s %d %s %d %s %s %d %d %s %s %d" % (
-                t, q["sid"], nl(q["cm"]), q["cc"], nl(q["rids"]), nl(n_of(x, "a") for x in q["addrs"]), q["inst"],
-                n_of(q["raft"], "a"), cbool(q["join"]), cbool(q["restore"]), n_of(q["app"], "app")))
-        obs = "(Plan [" + ";".join(rs) + "])"
+        obs = "(Plan [" + ";".join(coq_req(vf, q) for q in o["reqs"]) + "])"
     else:
         obs = {"err": "Refused", "panic": "Crash", "ood": "OutOfDraws"}[o["o"]]
-    return "lcase %d %d %s %s %s %s %s" % (ttl, c["tick"], hosts, shards, regs, nl(draws), obs)
+    return "lcode %d %s %s %s %s %s %s" % (ttl, cn(c["tick"]), hosts, shards, regs, coq_draws(vf, c, o), obs)
 
 
-def coq_vcase(q):
-    t = {0: "RCreate", 1: "RDelete", 2: "RAdd", 3: "RKill"}.get(q["t"], "RKill")
-    return "vcase (mkReq %s %d %s %d %s %s %d %d %s %s %d) %s" % (
-        t, q["sid"], nl(q["cm"]), q["cc"], nl(q["rids"]), nl(n_of(x, "a") for x in q["addrs"]), q["inst"],
-        n_of(q["raft"], "a"), cbool(q["join"]), cbool(q["restore"]), n_of(q["app"], "app"), cbool(q["v"]))
+def coq_vcase(vf, q):
+    return "vcode (%s) %s" % (coq_req(vf, q), cbool(q["v"]))
 
 
 # ------------------------------------------------------------------ the property, on plain python values
@@ -177,7 +216,8 @@ def add_draws(c, rng, short_p=0.04):
     if style == 0:
         pre = [0, 0, 0]
     elif style == 1:
-        pre = [rng.randrange(1 << 63) for _ in range(rng.randrange(1, 7))]
+        pre = [rng.choice([(1 << 63) - 1 - rng.randrange(1 << 20), (1 << 62) + rng.randrange(1 << 20), rng.randrange(1 << 31)])
+               for _ in range(rng.randrange(1, 7))]
     elif style == 2:
         x = rng.randrange(6)
         pre = [x, x, x + 1, x + 1, x]
@@ -186,11 +226,13 @@ def add_draws(c, rng, short_p=0.04):
     else:
         pre = [(1 << 63) - 1, (1 << 63) - 1, 1 << 62]
     if rng.random() < short_p:
-        c["draws"] = pre[:rng.randrange(0, len(pre) + 1)]
+        pre = pre[:rng.randrange(0, len(pre) + 1)]
+        c["draws"] = list(pre)
         c["ramped"] = False
     else:
         c["draws"] = pre + ramp(k)
         c["ramped"] = True
+    c["pre"] = pre
     return c
 
 
@@ -252,6 +294,7 @@ def gen_systematic(ck, ttl):
         for combo in itertools.combinations_with_replacement(range(len(kinds)), n):
             fleetsA.append([kinds[i] for i in combo])
     for fl in fleetsA:
+        hosts = mk_fleet(fl, rng)
         if quick and len(fl) == 4:
             sp = rng.sample(specs, 2)
         elif quick and len(fl) == 3:
@@ -259,7 +302,7 @@ def gen_systematic(ck, ttl):
         else:
             sp = specs
         for (label, rg) in sp:
-            c = {"tick": T0, "hosts": mk_fleet(fl, rng), "shards": [(1, 1, [1, 2])], "regions": rg, "origin": "A:" + label}
+            c = {"tick": T0, "hosts": hosts, "shards": [(1, 1, [1, 2])], "regions": rg, "origin": "A:" + label}
             cases.append(add_draws(c, rng))
     # B: shard sizes 1 and 3 on fleets of <= 3 hosts
     for n in (1, 3):
@@ -268,8 +311,9 @@ def gen_systematic(ck, ttl):
             if len(fl) > 3:
                 continue
             sp = rng.sample(specs, 3 if quick else 12)
+            hosts = mk_fleet(fl, rng)
             for (label, rg) in sp:
-                c = {"tick": T0, "hosts": mk_fleet(fl, rng), "shards": [(1, 1, list(range(1, n + 1)))], "regions": rg, "origin": "B:" + label}
+                c = {"tick": T0, "hosts": hosts, "shards": [(1, 1, list(range(1, n + 1)))], "regions": rg, "origin": "B:" + label}
                 cases.append(add_draws(c, rng))
     # C: two shards (the second one may be the unplaceable one): hosts may already host shard 2
     kinds2 = [(reg, t, ss) for reg in (1, 2, 3) for (t, ss) in ((T0 - ttl + 1, ()), (T0, (2,)), (T0 - ttl, ()))]
@@ -280,11 +324,12 @@ def gen_systematic(ck, ttl):
             combos = rng.sample(combos, 400)
         for combo in combos:
             fl = [kinds2[i] for i in combo]
+            hosts = mk_fleet(fl, rng)
             for rg in (rng.sample(good, 2) if quick else good):
                 for shards in ([(1, 1, [1, 2]), (2, 1, [3, 4])], [(2, 1, [3, 4]), (1, 1, [1, 2])]):
                     if quick and rng.random() < 0.5:
                         continue
-                    c = {"tick": T0, "hosts": mk_fleet(fl, rng), "shards": shards, "regions": rg, "origin": "C:two shards"}
+                    c = {"tick": T0, "hosts": hosts, "shards": shards, "regions": rg, "origin": "C:two shards"}
                     cases.append(add_draws(c, rng))
     # D: fleets that mostly fit: hosts good (live, not hosting) or bad in one way, 1..5 hosts, shard sizes 1..3, specifications that add up
     kindsD = [(reg, T0 - ttl + 1, ()) for reg in (1, 2, 3)] + [(1, T0 - ttl, ()), (2, T0 - ttl + 1, (1,)), (3, T0 + 1, ())]
@@ -295,8 +340,9 @@ def gen_systematic(ck, ttl):
             combos = list(itertools.combinations_with_replacement(range(len(kindsD)), nh))
             for combo in combos:
                 fl = [kindsD[i] for i in combo]
-                for rg in (rng.sample(fit, 2) if quick else fit):
-                    c = {"tick": T0, "hosts": mk_fleet(fl, rng), "shards": [(1, 1, list(range(1, n + 1)))], "regions": rg, "origin": "D:fitting"}
+                hosts = mk_fleet(fl, rng)
+                for rg in (rng.sample(fit, 3) if quick else fit):
+                    c = {"tick": T0, "hosts": hosts, "shards": [(1, 1, list(range(1, n + 1)))], "regions": rg, "origin": "D:fitting"}
                     cases.append(add_draws(c, rng))
     return cases
 
@@ -401,8 +447,14 @@ def run(ck):
         "the future and wrapped, regions incl. the empty name, specifications fitting the fleet or malformed. Every case carries a script of "
         "random-source values (zeros, repeats, values near 2^63, then consecutive integers so that every selection finishes; a few scripts "
         "are cut short). A case is non-trivial if it has a host and a shard; distinct by md5 of the executor input line.")
+    tm = {}
+    ck.cov["timing_s"] = tm
+    t0 = time.time()
     proofs_ok = ck.proofs(["theories/LaunchRun.vo"])
+    tm["proofs"] = round(time.time() - t0, 1)
+    t0 = time.time()
     binp = ck.go_test_bin("", ["root/zz_verif_launch_test.go"])
+    tm["go_build"] = round(time.time() - t0, 1)
     if binp is None:
         return
     s = ck.scratch()
@@ -440,10 +492,13 @@ def run(ck):
         cases = load_corpus()
         ck.cov["corpus_cases"] = len(cases)
         cases += gen_systematic(ck, ttl)
-        cases += gen_random(ck, ttl, 4000 if ck.tier == "quick" else 80000)
+        cases += gen_random(ck, ttl, 6000 if ck.tier == "quick" else 80000)
+    t0 = time.time()
     _, res = run_go(cases, "main")
+    tm["go_run"] = round(time.time() - t0, 1)
     if res is None:
         return
+    t0 = time.time()
     # ---------------- monitors: the property, directly on what the implementation returned
     outcomes, kinds, nviol = {}, {}, 0
     for c, o in zip(cases, res):
@@ -472,37 +527,42 @@ def run(ck):
     ck.sample({"case": go_line(cases[len(cases) // 3])[:400], "observed": json.dumps(res[len(cases) // 3])[:400]})
     ck.sample({"case": go_line(cases[-1])[:400], "observed": json.dumps(res[-1])[:400]})
     ck.sample({"case": go_line(cases[len(cases) // 2])[:400], "observed": json.dumps(res[len(cases) // 2])[:400]})
+    tm["monitors"] = round(time.time() - t0, 1)
     # ---------------- model side
     if not proofs_ok:
         return
-    items = []
-    seen_v = set()
-    for c, o in zip(cases, res):
-        items.append((coq_case(c, ttl, o), ("launch", c, o)))
-        for q in o["reqs"]:
-            t = coq_vcase(q)
-            if t not in seen_v and (len(seen_v) < 4000):
-                seen_v.add(t)
-                items.append((t, ("validate", q, None)))
+    t0 = time.time()
     nsh = 16
-    hdr = ("From stdpp Require Import gmap.\nFrom Drummer.Model Require Import Base DB Launch LaunchRun.\nLocal Open Scope N_scope.\n"
-           "Definition cases : list bool := [\n")
-    shards = [items[i::nsh] for i in range(nsh)]
-    jobs = []
-    for si, shd in enumerate(shards):
-        body = ";\n".join(t for (t, _) in shd)
-        jobs.append(("c08s%d" % si, hdr + body + "\n].\nDefinition M := Eval vm_compute in false_ix cases.\nPrint M.\n"))
+    vfs = [VFile() for _ in range(nsh)]
+    seen_v = set()
+    for i, (c, o) in enumerate(zip(cases, res)):
+        vf = vfs[(i // 48) % nsh]       # neighbours share fleets and specifications: keep them in one file
+        vf.items.append((coq_case(vf, c, ttl, o), ("launch", c, o)))
+        for q in o["reqs"]:
+            key = json.dumps(q, sort_keys=True)
+            if key not in seen_v and len(seen_v) < 4000:
+                seen_v.add(key)
+                vf.items.append((coq_vcase(vf, q), ("validate", q, None)))
+    shards = [vf.items for vf in vfs]
+    jobs = [("c08s%d" % si, vf.text()) for si, vf in enumerate(vfs)]
     outs = ck.coq_eval_par(jobs, timeout=3000)
-    mism = []
+    tm["model_eval"] = round(time.time() - t0, 1)
+    inexact, mism = [], []
     for si, (rc, out) in enumerate(outs):
-        badix = parse_coq_list_of_nat(out, "M") if rc == 0 else None
-        if badix is None:
+        m1 = parse_coq_list_of_nat(out, "M1") if rc == 0 else None
+        m2 = parse_coq_list_of_nat(out, "M2") if rc == 0 else None
+        if m1 is None or m2 is None:
             ck.violation("model evaluation failed (coqc)", {"kind": "coq-eval", "rc": rc, "out_tail": out[-3000:]}, found_input=False)
             return
-        for j in badix:
-            mism.append(shards[si][j])
-    ck.cov["traces_validated_against_impl"] = len(items)
+        inexact += [shards[si][j] for j in m1]
+        mism += [shards[si][j] for j in m2]
+    ck.cov["traces_validated_against_impl"] = sum(len(x) for x in shards)
     ck.cov["validate_cases"] = len(seen_v)
+    # code 1: the implementation used the scripted random values differently from the model but its outcome is one the
+    # specification allows (set-valued selection); not a disagreement about the property
+    ck.cov["allowed_but_not_the_models_choice"] = len(inexact)
+    if inexact:
+        ck.cov["allowed_but_not_the_models_choice_first"] = inexact[0][0][:1500]
     if mism and not ck.violations:
         term, info = mism[0]
         what, x, o = info
